@@ -44,6 +44,7 @@ class Roles:
         self.cfg_iter = self.cfg_next = None
         self.cfg_loop = None
         self.cfg_idx_var = self.cfg_var = None
+        self.zip_with: Dict[str, Term] = {}  # loop target -> the sequence it walks in step with self.configs (zip)
         self.passes: List[PassLoop] = []
         for n, nd in cfg.nodes.items():
             if nd.kind != "iter":
@@ -62,6 +63,16 @@ class Roles:
                 self.cfg_iter, self.cfg_next, self.cfg_loop = n, nxt, loop
                 if isinstance(loop.target, ast.Name):
                     self.cfg_var = loop.target.id
+            elif it[0] == "call" and it[1] == ("global", "zip") and not it[3] and ("self", "configs") in it[2] and \
+                    isinstance(loop.target, ast.Tuple) and len(loop.target.elts) == len(it[2]) and all(
+                        isinstance(e, ast.Name) for e in loop.target.elts):
+                # for a, config in zip(A, self.configs): 'a' is the element of A at the position of the current config
+                self.cfg_iter, self.cfg_next, self.cfg_loop = n, nxt, loop
+                for e, seq in zip(loop.target.elts, it[2]):
+                    if seq == ("self", "configs") and self.cfg_var is None:
+                        self.cfg_var = e.id
+                    else:
+                        self.zip_with[e.id] = seq
             elif contains(it, ("self", "configs")) and not (it[0] == "attr" and it[2] == "sampler"):
                 # some other traversal of self.configs (reversed, sorted, sliced ...): the config loop, in an
                 # order the properties' rules then judge
